@@ -26,8 +26,27 @@ func ShowFields(ctx context.Context, proc *query.Processor, filename string) err
 			return query.NewFileNotExistError(filePath)
 		}
 
-		q := statements[0].(parser.SelectQuery)
-		filePath = q.SelectEntity.(parser.SelectEntity).FromClause.(parser.FromClause).Tables[0].(parser.Table).Object
+		// the argument is a table name or a table object, nothing else that a FROM clause could hold
+		q, ok := statements[0].(parser.SelectQuery)
+		if !ok || len(statements) != 1 {
+			return query.NewFileNotExistError(filePath)
+		}
+		entity, ok := q.SelectEntity.(parser.SelectEntity)
+		if !ok {
+			return query.NewFileNotExistError(filePath)
+		}
+		from, ok := entity.FromClause.(parser.FromClause)
+		if !ok || len(from.Tables) != 1 {
+			return query.NewFileNotExistError(filePath)
+		}
+		table, ok := from.Tables[0].(parser.Table)
+		if !ok {
+			return query.NewFileNotExistError(filePath)
+		}
+		if _, isSubquery := table.Object.(parser.Subquery); isSubquery {
+			return query.NewFileNotExistError(filePath)
+		}
+		filePath = table.Object
 		filePath.ClearBaseExpr()
 	}
 
